@@ -619,6 +619,12 @@ pub fn check_step(s: &Step, tr: &mut Tracker, viols: &mut Vec<Viol>) -> Decides 
                                 out.push(C12, "iter-last", format!("{}: last() after the script returned {:?}, expected {:?}", kind.name(), rest, exp.map(|e| (e.ktok, e.vtok))));
                             }
                         }
+                        EndMode::RFold => {
+                            let ok = rest.len() == j - i && rest.iter().zip(pre.entries[i..j].iter().rev()).all(|(it, e)| item_ok(it, Some(e)));
+                            if !ok {
+                                out.push(C12, "iter-rfold", format!("{}: rfold() after the script visited {} items, the remaining {} entries in reverse order were expected", kind.name(), rest.len(), j - i));
+                            }
+                        }
                         EndMode::Fold => {
                             let ok = rest.len() == j - i && rest.iter().zip(pre.entries[i..j].iter()).all(|(it, e)| item_ok(it, Some(e)));
                             if !ok {
@@ -673,7 +679,7 @@ pub fn check_step(s: &Step, tr: &mut Tracker, viols: &mut Vec<Viol>) -> Decides 
                 }
             }
         }
-        OpKind::DropCache => {
+        OpKind::DropCache | OpKind::DropCacheUnwinding => {
             dec |= C06;
             x.clear();
         }
@@ -681,7 +687,7 @@ pub fn check_step(s: &Step, tr: &mut Tracker, viols: &mut Vec<Viol>) -> Decides 
     let _ = panicked_foreign;
 
     // ---------------------------------------------------------------- generic comparison X vs actual
-    let slot_replaced = matches!(s.op.kind, OpKind::DropCache) || matches!(&s.op.kind, OpKind::IterScript { kind, .. } if kind.consumes_cache());
+    let slot_replaced = matches!(s.op.kind, OpKind::DropCache | OpKind::DropCacheUnwinding) || matches!(&s.op.kind, OpKind::IterScript { kind, .. } if kind.consumes_cache());
     if let Some(post) = post_t {
         if !post.broken {
             let a_list: Vec<XE> = post.entries.iter().map(xe).collect();
@@ -956,7 +962,7 @@ pub fn check_step(s: &Step, tr: &mut Tracker, viols: &mut Vec<Viol>) -> Decides 
                 // when everything is gone (end-of-run oracle `never-dropped`).  Only where a statement fixes
                 // the moment ("owning iterators drop whatever was not consumed", retain: "gone (and
                 // dropped)", dropping the cache) is a missing drop reported at the step itself.
-                let timed = matches!(s.op.kind, OpKind::IterScript { .. } | OpKind::Retain { .. } | OpKind::DropCache | OpKind::Clear);
+                let timed = matches!(s.op.kind, OpKind::IterScript { .. } | OpKind::Retain { .. } | OpKind::DropCache | OpKind::DropCacheUnwinding | OpKind::Clear);
                 if timed {
                     for &tk in &inn {
                         if outt.binary_search(&tk).is_err() && drops.binary_search(&tk).is_err() {
@@ -987,7 +993,7 @@ pub fn check_step(s: &Step, tr: &mut Tracker, viols: &mut Vec<Viol>) -> Decides 
         // "Traversals, clear, drain and the LRU/MRU peeks hash nothing" (Debug formatting is a traversal);
         // everything else, including the plain getters and dropping the cache, falls under the general bound
         let zero_ops = matches!(s.op.kind, OpKind::IterScript { .. } | OpKind::Clear | OpKind::PeekLru | OpKind::PeekMru | OpKind::DebugFmt);
-        let departed = if matches!(s.op.kind, OpKind::DropCache) { pre.len } else { departed };
+        let departed = if matches!(s.op.kind, OpKind::DropCache | OpKind::DropCacheUnwinding) { pre.len } else { departed };
         let bound = if zero_ops {
             0
         } else if s.op.kind.is_capacity_op() || s.op.kind.is_clone() {
